@@ -93,26 +93,94 @@ def _relevant(effects):
 
 
 def signature(paths):
-    """{component: sorted texts}: what is returned, what is stored/called on the object, what is refused - per path."""
-    sig = {"returns": [], "stores": [], "raises": []}
+    """{component: sorted texts}: what is returned, what is stored/called on the object, what is refused.
+
+    Each component is a case table: the path conditions are expanded to complete assignments of the boolean atoms that
+    occur (minterms), so `if a and b: X else: Y` and `if not a: Y elif b: X else: Y` give the same table.  Integer
+    interval atoms (already canonical, see summary._intervals) stay part of the case key."""
+    rows = {"returns": [], "stores": [], "raises": []}
     for p in paths:
-        c = " and ".join(("" if pol else "not ") + t for t, pol in p.conds) or "always"
         rel = _relevant(p.effects)
         early = [e for e in rel if _only(e, "return")]
         rel = [e for e in rel if not _only(e, "return")]
         stores = [e for e in rel if e[0] != "raise" and not _only_raises(e)]
         rs = [e for e in rel if e[0] == "raise" or _only_raises(e)]
         if p.kind == "return":
-            sig["returns"].append(f"[{c}] " + (summary.show_effects(early) + " ; then " if early else "") + f"{p.value}")
+            rows["returns"].append((p.conds, (summary.show_effects(early) + " ; then " if early else "") + f"{p.value}"))
         elif p.kind == "raise":
-            sig["raises"].append(f"[{c}] {p.value}")
-        else:
-            sig["returns"].append(f"[{c}] (no value)")
+            rows["raises"].append((p.conds, f"raise {p.value}"))
         if stores:
-            sig["stores"].append(f"[{c}] {summary.show_effects(stores)}")
+            rows["stores"].append((p.conds, summary.show_effects(stores)))
         for e in rs:
-            sig["raises"].append(f"[{c}] {summary.show_effect(e)}")
-    return {k: sorted(v) for k, v in sig.items()}
+            rows["raises"].append((p.conds, summary.show_effect(e)))
+    return {k: _case_table(v) for k, v in rows.items()}
+
+
+def _is_int_atom(t: str) -> bool:
+    import re
+
+    return bool(re.match(r"^.* (<|==) -?\d+$", t)) and not t.startswith("ALL[")
+
+
+def _members(t: str):
+    """Signed members of a compound atom ALL[+a;-b]."""
+    inner = t[4:-1]
+    out, depth, cur = [], 0, ""
+    for ch in inner:
+        if ch in "([{":
+            depth += 1
+        elif ch in ")]}":
+            depth -= 1
+        if ch == ";" and depth == 0:
+            out.append(cur)
+            cur = ""
+        else:
+            cur += ch
+    if cur:
+        out.append(cur)
+    return [(m[1:], m[0] == "+") for m in out]
+
+
+def _case_table(rows):
+    import itertools
+
+    universe = set()
+    for conds, _ in rows:
+        for t, pol in conds:
+            if t.startswith("ALL["):
+                universe |= {m for m, _ in _members(t) if not _is_int_atom(m)}
+            elif not _is_int_atom(t):
+                universe.add(t)
+    universe = sorted(universe)
+    if len(universe) > 10:
+        return sorted("[" + " and ".join(("" if pol else "not ") + t for t, pol in conds) + "] " + out for conds, out in rows)
+    table = set()
+    for values in itertools.product((True, False), repeat=len(universe)):
+        asg = dict(zip(universe, values))
+        for conds, out in rows:
+            ok = True
+            ints = []
+            for t, pol in conds:
+                if t.startswith("ALL["):
+                    mem = _members(t)
+                    if any(_is_int_atom(m) for m, _ in mem):
+                        ints.append((t, pol))
+                        continue
+                    allv = all(asg[m] == want for m, want in mem)
+                    if allv != pol:
+                        ok = False
+                        break
+                elif _is_int_atom(t):
+                    ints.append((t, pol))
+                elif asg[t] != pol:
+                    ok = False
+                    break
+            if ok:
+                key = ", ".join(("" if v else "not ") + a for a, v in asg.items()) or "always"
+                if ints:
+                    key += " | " + " and ".join(("" if pol else "not ") + t for t, pol in sorted(ints))
+                table.add(f"[{key}] {out}")
+    return sorted(table)
 
 
 def _only(e, kind) -> bool:
@@ -134,7 +202,7 @@ def reference_paths(source: str, params=None):
     return summary.summarise(fn, params)
 
 
-def agree(ctx, rule, finfo, reference: str, what: dict, params=None, keep=(), key_prefix=""):
+def agree(ctx, rule, finfo, reference: str, what: dict, params=None, keep=(), key_prefix="", only_cases=None):
     """One obligation per component: the summary of the implementation equals the summary of the reference model.
 
     what: {component: sentence}.  A found summary that contains lost-precision markers where the reference has none is an
@@ -144,6 +212,9 @@ def agree(ctx, rule, finfo, reference: str, what: dict, params=None, keep=(), ke
     found = signature(paths_of(ctx, finfo, params, keep))
     want = signature(reference_paths(reference, params))
     ctx.touch(finfo)
+    if only_cases is not None:  # compare only the cases (rows of the case table) the property speaks about
+        found = {k: [r for r in v if only_cases(r)] for k, v in found.items()}
+        want = {k: [r for r in v if only_cases(r)] for k, v in want.items()}
     for comp, sentence in what.items():
         ok = found[comp] == want[comp]
         if not ok and any(m in t for t in found[comp] for m in LOST) and not any(m in t for t in want[comp] for m in LOST):
